@@ -18,18 +18,18 @@ import (
 )
 
 type Guard struct {
-	Fn    *ssa.Function
-	Block *ssa.BasicBlock
-	Pos   token.Pos
+	Fn       *ssa.Function
+	Block    *ssa.BasicBlock
+	Pos      token.Pos
 	L, Op, R string
-	Weak  bool     // neither successor rejects outright (conjunct / disjunct of a larger condition)
-	Ctx   []string // unexpected conditions dominating the guard, along the whole call chain
-	Chain []string // call chain from the entry
-	Sites []Site   // the call-site blocks along the chain, ending with the guard's own block
-	CondV ssa.Value // the SSA condition, for engines that need the operand values (affine forms)
-	Env   *Env
-	IfPos ssa.Instruction
-	Ret   bool // the guard is a returned boolean value, not a branch
+	Weak     bool      // neither successor rejects outright (conjunct / disjunct of a larger condition)
+	Ctx      []string  // unexpected conditions dominating the guard, along the whole call chain
+	Chain    []string  // call chain from the entry
+	Sites    []Site    // the call-site blocks along the chain, ending with the guard's own block
+	CondV    ssa.Value // the SSA condition, for engines that need the operand values (affine forms)
+	Env      *Env
+	IfPos    ssa.Instruction
+	Ret      bool // the guard is a returned boolean value, not a branch
 }
 
 // A Site is a block of a function analysed under an environment.
@@ -64,17 +64,17 @@ type fnInfo struct {
 }
 
 type GuardEngine struct {
-	skipRes []*regexp.Regexp // Skip patterns of the row being evaluated
-	errCells  map[*ssa.Alloc]bool // see errResultCell
-	inErrCell bool
-	predDepth int // nesting of one-line predicate expansion in decompose
-	p     *Program
-	pv    *Prov
-	infos map[*ssa.Function]*fnInfo
-	Depth int
-	rootDepth int
-	factDepth int
-	nonNilCtor map[*ssa.Function]bool
+	skipRes     []*regexp.Regexp    // Skip patterns of the row being evaluated
+	errCells    map[*ssa.Alloc]bool // see errResultCell
+	inErrCell   bool
+	predDepth   int // nesting of one-line predicate expansion in decompose
+	p           *Program
+	pv          *Prov
+	infos       map[*ssa.Function]*fnInfo
+	Depth       int
+	rootDepth   int
+	factDepth   int
+	nonNilCtor  map[*ssa.Function]bool
 	globalFuncs map[*ssa.Global][]*ssa.Function
 }
 
@@ -1285,17 +1285,17 @@ func propagatingCall(cond ssa.Value) *ssa.Call {
 
 // A GuardReq is one row of a property's guard table.
 type GuardReq struct {
-	ID      string
-	Entry   string   // entry point, e.g. "consensus.ValidateTransaction"
-	L       string   // regexp on the left atom
-	Ops     []string // admissible operators for "rejects iff L op R"
-	R       string   // regexp on the right atom ("" for boolean atoms)
-	Ctx     []string // regexps of conditions under which the guard may legitimately be evaluated
-	Weak    bool     // a weak (conjunct) guard discharges the requirement
-	Clause  string   // the clause of the property statement this row comes from
-	MinHits int      // number of distinct guards (by position) that must satisfy the row (default 1)
-	LoopExitOK bool  // the enclosing loop may legitimately stop early before reaching the guard (break)
-	All        bool  // search the guards of every function and closure reachable from the entry, not only error-propagating calls
+	ID         string
+	Entry      string            // entry point, e.g. "consensus.ValidateTransaction"
+	L          string            // regexp on the left atom
+	Ops        []string          // admissible operators for "rejects iff L op R"
+	R          string            // regexp on the right atom ("" for boolean atoms)
+	Ctx        []string          // regexps of conditions under which the guard may legitimately be evaluated
+	Weak       bool              // a weak (conjunct) guard discharges the requirement
+	Clause     string            // the clause of the property statement this row comes from
+	MinHits    int               // number of distinct guards (by position) that must satisfy the row (default 1)
+	LoopExitOK bool              // the enclosing loop may legitimately stop early before reaching the guard (break)
+	All        bool              // search the guards of every function and closure reachable from the entry, not only error-propagating calls
 	LFn        func(string) bool // when set, decides the left operand instead of the L pattern (argument-order-insensitive rows)
 	RFn        func(string) bool // likewise for the right operand
 	Skip       []string          // conditions under which going around the guard is legitimate wherever they are tested (not only when they dominate it)
@@ -1565,7 +1565,6 @@ func fieldStores(fn *ssa.Function, field string) []*ssa.Store {
 	}
 	return out
 }
-
 
 // ctxAllowed decides whether a dominating condition is a legitimate context of a guard/call whose
 // operands are given: listed patterns; a successful type assertion whose value the operands use;
